@@ -405,6 +405,14 @@ fn w_string_eol() -> bool {
     v(&raw_cr.map_err(|e| e.to_string()), "a\\x0ab") || v(&unknown.map_err(|e| e.to_string()), "\"aqb\"") || hexnul.map(|s| !s.contains("\"AB\"")).unwrap_or(true) || rt != Ok(p)
 }
 
+fn w_current_point_after_close() -> bool {
+    use pdf::content::{parse_ops, Op};
+    let ops = parse_ops(b"0 0 m 10 0 l 10 10 l h 20 20 30 30 v\n5 6 7 8 re 1 1 2 2 v", &pdf::object::NoResolve).unwrap();
+    let curves: Vec<_> = ops.iter().filter_map(|o| if let Op::CurveTo { c1, .. } = o { Some((c1.x, c1.y)) } else { None }).collect();
+    println!("first control points of the two `v` curves: {:?} (specification: after `h` the current point is the subpath start (0,0); after `re` it is (5,6))", curves);
+    curves != vec![(0.0, 0.0), (5.0, 6.0)]
+}
+
 fn main() {
     let all: Vec<(&str, fn() -> bool)> = vec![
         ("lzw_predictor", w_lzw_predictor),
@@ -423,6 +431,7 @@ fn main() {
         ("failed_save_retry", w_failed_save_retry),
         ("name_escape", w_name_escape),
         ("string_eol", w_string_eol),
+        ("current_point_after_close", w_current_point_after_close),
     ];
     let want: Vec<String> = std::env::args().skip(1).collect();
     for (n, f) in all {
